@@ -11,7 +11,7 @@ import sessgen
 H12 = 12 * 3600 * 1000
 
 
-def check_trace(rep, case, events, outcomes, opinfo):
+def check_trace(rep, case, events, outcomes, opinfo, etimes=None):
     """the discipline, on the implementation's trace"""
     counters, key, ok = {}, {}, True
     for e in events:
@@ -39,7 +39,19 @@ def check_trace(rep, case, events, outcomes, opinfo):
         end = opinfo[i + 1]["nevents"] if i + 1 < len(opinfo) else len(events)
         new = events[info["nevents"]:end]
         writes = [e for e in new if e[0] in (2, 3)]
-        if (not info["alive"] or not info["authed"]) and writes and writes[0][0] != 2:
+        # independent judgement of 'authentication older than 12 h': time of the handshake request whose reply was accepted last
+        stale = False
+        if etimes:
+            before = events[:info["nevents"]]
+            cids = [e[1] for e in before if e[0] == 1]
+            if cids:
+                cid = cids[-1]
+                idx = [k for k, e in enumerate(before) if e[0] == 4 and e[1] == cid]
+                if idx:
+                    hs = [k for k in range(idx[-1]) if before[k][0] == 2 and before[k][1] == cid]
+                    if hs and info["time"] - etimes[hs[-1]] > 12 * 3600 + 5:
+                        stale = True
+        if (not info["alive"] or not info["authed"] or stale) and writes and writes[0][0] != 2:
             rep.fail("oracle", "exchange-without-handshake", case_dict(case), {"op_index": i, "entry": info, "new_events": new}); return
         if info["has_proto"] and not info["alive"] and writes:
             old = [e[1] for e in events[:info["nevents"]] if e[0] == 1]
@@ -102,7 +114,7 @@ def run(ctx, rep):
         if tuple(im) != tuple(md):
             diff = [n for n, x, y in zip(("now", "lan", "outcomes", "events"), im, md) if x != y]
             rep.fail("corr", "session:" + ",".join(diff), case_dict(c), {"impl": im, "model": md})
-        check_trace(rep, c, im[3], im[2], sess.run_impl.last_opinfo)
+        check_trace(rep, c, im[3], im[2], sess.run_impl.last_opinfo, sess.run_impl.last_event_times)
     rep.sample({"ops": cases[5][3], "events": "see correspondence"})
     # ---- a long session: counters wrap at 4096 again and again; authentication expires in between -----------------
     n = ctx.n(5000, 70000)
